@@ -26,6 +26,11 @@ type Sym struct {
 	Inc     bool   // can be expressed through the cache.BugCache API (incremental path)
 	Reduced bool   // member of the reduced alphabet (deeper bound)
 	Small   bool   // member of the small alphabet (create-with-files run)
+	// metadata-value alphabet (MetaAlphabet): an explicit value for set-metadata (the empty string is a
+	// value like any other) and metadata the operation itself carries besides "o"
+	HasVal bool
+	Val    string
+	Own    map[string]string
 }
 
 func labelVariants(kind string, inc bool) []Sym {
@@ -88,6 +93,26 @@ func Alphabet() []Sym {
 	return a
 }
 
+// MetaAlphabet is the alphabet of the metadata-value runs: set-metadata with values {"", v1, v2} on
+// keys {k1, k2} of the create operation and of the first comment, and add-comment operations that
+// carry k1 themselves (with a non-empty and with the empty value) — a later set-metadata of a key the
+// operation carries must never show. Every symbol can be expressed through cache.BugCache.
+func MetaAlphabet() []Sym {
+	a := []Sym{
+		{Name: "add-comment/A", Kind: "add", Inc: true},
+		{Name: "add-comment{k1=own}/A", Kind: "add", Inc: true, Own: map[string]string{"k1": "own"}},
+		{Name: "add-comment{k1=}/A", Kind: "add", Inc: true, Own: map[string]string{"k1": ""}},
+	}
+	for _, t := range []string{"create", "c1"} {
+		for _, k := range []string{"k1", "k2"} {
+			for _, v := range []string{"", "v1", "v2"} {
+				a = append(a, Sym{Name: fmt.Sprintf("set-metadata(%s,%s=%q)/A", t, k, v), Kind: "meta", Target: t, Key: k, HasVal: true, Val: v, Inc: true})
+			}
+		}
+	}
+	return a
+}
+
 func filter(a []Sym, f func(Sym) bool) []Sym {
 	var out []Sym
 	for _, s := range a {
@@ -102,11 +127,22 @@ func filter(a []Sym, f func(Sym) bool) []Sym {
 type Env struct {
 	Authors [2]identity.Interface
 	Names   map[entity.Id]string
+	byId    map[entity.Id]*identity.Identity
+}
+
+// resolvers hands the two in-memory authors to bug.ReadWithResolver (reload path).
+func (e *Env) resolvers() entity.Resolvers {
+	return entity.Resolvers{&identity.Identity{}: entity.ResolverFunc[*identity.Identity](func(id entity.Id) (*identity.Identity, error) {
+		if i, ok := e.byId[id]; ok {
+			return i, nil
+		}
+		return nil, fmt.Errorf("unknown identity %s", id)
+	})}
 }
 
 func NewEnv() (*Env, error) {
 	repo := repository.NewMockRepo()
-	e := &Env{Names: map[entity.Id]string{}}
+	e := &Env{Names: map[entity.Id]string{}, byId: map[entity.Id]*identity.Identity{}}
 	for i, n := range []string{"A", "B"} {
 		id, err := identity.NewIdentity(repo, n, n+"@example.org")
 		if err != nil {
@@ -117,6 +153,7 @@ func NewEnv() (*Env, error) {
 		}
 		e.Authors[i] = id
 		e.Names[id.Id()] = n
+		e.byId[id.Id()] = id
 	}
 	return e, nil
 }
@@ -199,6 +236,9 @@ func (bd *builder) apply(s Sym, pos int) (string, error) {
 	author := bd.env.Authors[s.Author]
 	t := int64(baseTime + pos)
 	meta := map[string]string{"o": fmt.Sprintf("orig%d", pos)}
+	for k, v := range s.Own {
+		meta[k] = v
+	}
 	msg := fmt.Sprintf("m%d", pos)
 	var files []repository.Hash
 	if s.Files {
@@ -267,6 +307,9 @@ func (bd *builder) apply(s Sym, pos int) (string, error) {
 			return Inapplicable, nil
 		}
 		nm := map[string]string{s.Key: fmt.Sprintf("v%d", pos)}
+		if s.HasVal {
+			nm[s.Key] = s.Val
+		}
 		if bd.c != nil {
 			_, err = bd.c.SetMetadataRaw(author, t, id, nm)
 		} else {
@@ -293,7 +336,7 @@ func (bd *builder) apply(s Sym, pos int) (string, error) {
 
 // Case is one element of the enumerated space.
 type Case struct {
-	Mode        string   `json:"mode"`         // "full" or "incremental"
+	Mode        string   `json:"mode"`         // "full", "incremental" or "reload" (full, then committed to an in-memory repository and read back)
 	CreateFiles bool     `json:"create_files"` // the create operation carries files
 	ForceAt     int      `json:"force_at"`     // incremental: the snapshot is forced after this many appended operations
 	Seq         []string `json:"seq"`
@@ -391,6 +434,23 @@ func (env *Env) Run(syms []Sym, createFiles bool, mode string, forceAt int) (res
 	report("repeatable", compareViews(v1, v2))
 	report("repeatable-first-snapshot-disturbed", compareViews(v1, v1again))
 	report("state-vs-reference", compareWithReference(v1, exp))
+	if mode == "reload" {
+		// store the bug in a fresh in-memory repository (real Commit: operation packs, trees, commits
+		// of the mock repository), read it back with the real reader and compile the reloaded bug
+		repo := repository.NewMockRepo()
+		if cerr := b.Commit(repo); cerr != nil {
+			return res, fmt.Errorf("commit: %v", cerr)
+		}
+		rb, rerr := bug.ReadWithResolver(repo, env.resolvers(), b.Id())
+		if rerr != nil {
+			res.Found = append(res.Found, Found{"reload", "unreadable", fmt.Sprintf("the committed bug cannot be read back: %v", rerr)})
+			return res, nil
+		}
+		vr := Observe(rb.Compile(), env.Names)
+		report("reload-vs-reference", compareWithReference(vr, exp))
+		// the in-memory bug compiled again after the commit
+		report("repeatable-after-commit", compareViews(v1, Observe(b.Compile(), env.Names)))
+	}
 	return res, nil
 }
 
@@ -404,7 +464,7 @@ func symNames(s []Sym) []string {
 
 func lookup(names []string) ([]Sym, error) {
 	byName := map[string]Sym{}
-	for _, s := range Alphabet() {
+	for _, s := range append(MetaAlphabet(), Alphabet()...) {
 		byName[s.Name] = s
 	}
 	var out []Sym
